@@ -852,35 +852,60 @@ func checkMemoryStreamPolls(c *Ctx, p *Prog, rule string) {
 		c.Unresolved(rule, "UNRESOLVED-ANCHOR/MemoryStore.ReadStream", "iterator function not found")
 		return
 	}
-	li := loopsOf(it)
-	n := 0
-	for _, b := range it.Blocks {
-		for _, in := range b.Instrs {
-			call, ok := in.(*ssa.Call)
-			if !ok || !isDynamicCall(call.Common()) || len(call.Common().Args) != 2 {
-				continue
-			}
-			if k, isNil := call.Common().Args[0].(*ssa.Const); isNil && k.Value == nil {
-				continue // yield(nil, err)
-			}
-			n++
-			h := li.headerOf[b]
-			polled := false
-			if h != nil {
-				for blk := range li.body[h] {
-					for _, x := range blk.Instrs {
-						if _, _, _, isPoll := ctxDoneSelect(x); isPoll && blk.Dominates(b) && blk != h || isPollAt(x) && blk == h {
-							polled = true
-						}
-					}
-				}
-			}
-			c.Check(polled, rule, "MemoryStore.ReadStream/context-polled-before-every-yield", p.Pos(in.Pos()), "a poll of ctx.Done() in the same iteration dominates the yield of each event", "the in-memory stream does not poll its context before every event it yields (the poll is conditional or outside the loop): a replay cancelled mid-stream runs to the end and returns nil")
-		}
+	// path rule (helpers of the package are inlined, so a poll moved into `cancelled()`
+	// still counts): every yield of an event is preceded, since the previous yield, by a
+	// non-blocking poll of the context's Done channel
+	e := NewEngine(p)
+	r := &memPollRule{}
+	e.Run(r, it, "n")
+	c.Stats["product_states"] += e.States
+	for _, fd := range e.Findings {
+		c.Violate(rule, "MemoryStore.ReadStream/"+fd.Construct, p.Pos(fd.Pos), fd.Msg, fd.Trace)
 	}
-	if n == 0 {
+	if r.yields == 0 {
 		c.Unresolved(rule, "MemoryStore.ReadStream/yield-sites", "no yield of an event found")
+	} else if len(e.Findings) == 0 {
+		c.Discharge(rule, "MemoryStore.ReadStream/context-polled-before-every-yield", p.Pos(it.Pos()), "on every path a poll of ctx.Done() separates consecutive yields of events")
 	}
+}
+
+type memPollRule struct {
+	BaseRule
+	yields int
+}
+
+func (r *memPollRule) Inline(fn *ssa.Function) bool { return PkgOf(fn) == PkgBus }
+func (r *memPollRule) PredOK(string) bool            { return false }
+
+func (r *memPollRule) OnInstr(e *Engine, st *State, fc *FrameCtx, in ssa.Instruction) bool {
+	if _, _, _, isPoll := ctxDoneSelect(in); isPoll {
+		st.Sigma = "p"
+		return false
+	}
+	call, ok := in.(*ssa.Call)
+	if !ok || !isDynamicCall(call.Common()) || len(call.Common().Args) != 2 {
+		return false
+	}
+	if _, isSig := call.Common().Value.Type().Underlying().(*types.Signature); !isSig {
+		return false
+	}
+	if k, isNil := call.Common().Args[0].(*ssa.Const); isNil && k.Value == nil {
+		return false // yield(nil, err)
+	}
+	if !isStoredEventPtr(call.Common().Args[0].Type()) {
+		return false
+	}
+	r.yields++
+	if st.Sigma != "p" {
+		e.Report(st, in.Pos(), "context-polled-before-every-yield", "the in-memory stream does not poll its context before every event it yields (the poll is conditional or outside the loop): a replay cancelled mid-stream runs to the end and returns nil")
+	}
+	st.Sigma = "n"
+	return false
+}
+
+func isStoredEventPtr(t types.Type) bool {
+	pt, ok := t.Underlying().(*types.Pointer)
+	return ok && typeName(pt.Elem()) == "StoredEvent"
 }
 
 func isPollAt(x ssa.Instruction) bool {
